@@ -433,17 +433,20 @@ Definition LIB_ORDER : string := "org.robofab.opentype.featureorder".
 Definition LIB_FEATURES : string := "org.robofab.opentype.features".
 Definition robofab_lib_keys : list string := [LIB_HINT; LIB_CLASSES; LIB_ORDER; LIB_FEATURES].
 
-Inductive hshape := HAssign | HFlatten.
+(** value types inside the hint data dictionary: number, boolean, list of numbers, list of
+    lists of numbers *)
+Inductive hty := HNum | HBool | HNums | HNumss.
+Inductive hshape := HAssign (t : hty) | HFlatten.
 (** (format-3 attribute, key inside the hint data dictionary, shape): the blue zones are
     stored as lists of pairs and are flattened *)
 Definition spec_hint_table : list (string * string * hshape) :=
-  [("postscriptBlueFuzz", "blueFuzz", HAssign);
-   ("postscriptBlueScale", "blueScale", HAssign);
-   ("postscriptBlueShift", "blueShift", HAssign);
+  [("postscriptBlueFuzz", "blueFuzz", HAssign HNum);
+   ("postscriptBlueScale", "blueScale", HAssign HNum);
+   ("postscriptBlueShift", "blueShift", HAssign HNum);
    ("postscriptBlueValues", "blueValues", HFlatten);
    ("postscriptOtherBlues", "otherBlues", HFlatten);
    ("postscriptFamilyBlues", "familyBlues", HFlatten);
    ("postscriptFamilyOtherBlues", "familyOtherBlues", HFlatten);
-   ("postscriptForceBold", "forceBold", HAssign);
-   ("postscriptStemSnapH", "hStems", HAssign);
-   ("postscriptStemSnapV", "vStems", HAssign)].
+   ("postscriptForceBold", "forceBold", HAssign HBool);
+   ("postscriptStemSnapH", "hStems", HAssign HNums);
+   ("postscriptStemSnapV", "vStems", HAssign HNums)].
